@@ -34,6 +34,8 @@ enum Slot {
     Q(UniqueArc<T>), QS(UniqueArc<[T]>), QH(UniqueArc<HS>), QD(UniqueArc<dyn TrW>), QW(UniqueArc<HWL>),
     QM(UniqueArc<MaybeUninit<T>>), QMS(UniqueArc<[MaybeUninit<T>]>), QHM(UniqueArc<HSM>),
     R(*const T), RB(*const TB), RS(*const [T]), RD(*const dyn TrW), RT(*const c_void),
+    #[cfg(feature = "t_arc_swap")]
+    SW(arc_swap::ArcSwapAny<Arc<T>>),
 }
 use Slot::*;
 
@@ -146,6 +148,8 @@ impl World {
             QM(q) => ("uniq", "mu", first_word(q), 1, vec![], "-".into()),
             QMS(q) => ("uniq", "muSlice", first_word(q), q.len(), vec![], "-".into()),
             QHM(q) => ("uniq", "hsMu", first_word(q), q.slice.len(), vec![], format!("h{}-", show_t(&q.header))),
+            #[cfg(feature = "t_arc_swap")]
+            SW(c) => { let g = c.load(); let a: &Arc<T> = &g; ("arc", "sized", first_word(a), 1, vec![Arc::count(a), Arc::strong_count(a)], format!("[{}]", show_t(a))) }
             R(p) => ("raw", "sized", *p as usize, 1, vec![], format!("[{}]", show_t(unsafe { &**p }))),
             RB(p) => ("raw", "sizedB", *p as usize, 1, vec![], format!("[{}]", show_tb(unsafe { &**p }))),
             RS(p) => ("raw", "slice", *p as *const T as usize, unsafe { (&**p).len() }, vec![], show_slice(unsafe { &**p })),
@@ -166,6 +170,8 @@ impl World {
             A(a) => first_word(a), AB(a) => first_word(a), AD(a) => first_word(a), AS(a) => first_word(a), AU(a) => first_word(a),
             AH(a) => first_word(a), AW(a) => first_word(a), AM(a) => first_word(a), AMS(a) => first_word(a), Th(a) => first_word(a),
             O(a) => first_word(a), U(a) => first_word(a) & !1, Q(a) => first_word(a), QS(a) => first_word(a), QH(a) => first_word(a), QD(a) => first_word(a), QW(a) => first_word(a),
+            #[cfg(feature = "t_arc_swap")]
+            SW(c) => { let g = c.load(); let a: &Arc<T> = &g; first_word(a) }
             QM(a) => first_word(a), QMS(a) => first_word(a), QHM(a) => first_word(a),
             R(p) => *p as usize, RB(p) => *p as usize, RS(p) => *p as *const T as usize, RD(p) => *p as *const u8 as usize, RT(p) => *p as usize,
         };
@@ -645,6 +651,42 @@ fn run_op(w: &mut World, f: &[&str]) -> St {
                 }
             }));
             match r { Ok(()) => St::Ok(acc), Err(e) => { CB_ACC.with(|c| *c.borrow_mut() = acc); std::panic::resume_unwind(e) } }
+        }
+        #[cfg(feature = "t_arc_swap")]
+        "asw" if n >= 3 => {
+            // arc-swap integration (RefCnt for Arc<T>): the cell is one more owning handle
+            match (f[1], n) {
+                ("new", 4) => {
+                    let d = idx!(f[2]); let s = idx!(f[3]);
+                    if !w.is_empty(d) || !matches!(w.slots[s], A(_)) { bad!(); }
+                    if let A(a) = w.take(s) { w.slots[d] = SW(lib(|| arc_swap::ArcSwapAny::new(a))); }
+                    St::Ok(String::new())
+                }
+                ("load", 3) => {
+                    let c = idx!(f[2]);
+                    match &w.slots[c] { SW(cell) => { lib(|| { let g = cell.load(); let _ = g.read(); drop(g); }); St::Ok(String::new()) } _ => bad!() }
+                }
+                ("loadFull", 4) => {
+                    let d = idx!(f[2]); let c = idx!(f[3]);
+                    if !w.is_empty(d) { bad!(); }
+                    let a = match &w.slots[c] { SW(cell) => lib(|| cell.load_full()), _ => bad!() };
+                    w.slots[d] = A(a);
+                    St::Ok(String::new())
+                }
+                ("store", 4) => {
+                    let c = idx!(f[2]); let k = idx!(f[3]);
+                    if !matches!(w.slots[c], SW(_)) || !matches!(w.slots[k], A(_)) || c == k { bad!(); }
+                    if let A(a) = w.take(k) { if let SW(cell) = &w.slots[c] { lib(|| cell.store(a)); } }
+                    St::Ok(String::new())
+                }
+                ("into", 3) => {
+                    let c = idx!(f[2]);
+                    if !matches!(w.slots[c], SW(_)) { bad!(); }
+                    if let SW(cell) = w.take(c) { w.slots[c] = A(lib(|| cell.into_inner())); }
+                    St::Ok(String::new())
+                }
+                _ => St::Bad,
+            }
         }
         "dropAll" if n == 1 => {
             for i in 0..NSLOTS { let h = w.take(i); take_back_and_drop(h); }
